@@ -219,13 +219,36 @@ def stop_rule_records(emd, seed, count):
         out = core.guarded(S.sd_stop, cur[:, None], (cur - d)[:, None], sd=thr, niters=2)
         recs.append({'rule': 'sd', 'num': int(np.sum(d ** 2)), 'den': int(np.sum(cur ** 2)), 'tp': tp2, 'tq': tq2, 'raised': int(isinstance(out, str)),
                      'fired': -1 if isinstance(out, str) else int(bool(out[0]))})
+        # energy: integer-valued signals with sums of squares A and B, thresholds of 0 / 20 / 40 dB (ratios 1, 10, 100).
+        # One call in three sits next to the threshold (A = B * 10^K +- 1); the exact tie is only asked for K = 0, where
+        # both logarithms are the same number (for K > 0 the two rounded logarithms decide a tie, not the rule).
+        K = int(rng.randint(0, 3))
+        bvec = rng.randint(-3, 4, size=int(rng.choice([3, 6, 12]))).astype(float)
+        if not bvec.any():
+            bvec[0] = 1.0
+        B = int(np.sum(bvec ** 2))
+        if it % 3 == 2:
+            A = B * 10 ** K + int(rng.choice([-1, 1] if K else [-1, 0, 1]))
+        else:
+            A = int(rng.randint(1, 4 * B * 10 ** K + 2))
+        A = max(A, 1)
+        avec, left = [], A
+        while left > 0:                 # A as a sum of integer squares (greedy)
+            r = int(np.floor(np.sqrt(left)))
+            avec.append(float(r) * int(rng.choice([-1, 1])))
+            left -= r * r
+        avec = np.array(avec + [0.0] * int(rng.randint(0, 3)))
+        rng.shuffle(avec)
+        out = core.guarded(S.energy_stop, avec, bvec, thresh=20 * K, niters=4)
+        recs.append({'rule': 'energy', 'A': A, 'B': B, 'K': K, 'raised': int(isinstance(out, str)),
+                     'fired': -1 if isinstance(out, str) else int(bool(out[0]))})
         ni, mx = int(rng.randint(1, 8)), int(rng.randint(1, 8))
         out = core.guarded(S.fixed_stop, ni, mx)
         recs.append({'rule': 'fixed', 'niters': ni, 'maxit': mx, 'raised': int(isinstance(out, str)), 'fired': -1 if isinstance(out, str) else int(bool(out))})
     return recs
 
 
-STOP_INVS = ['RillingAnyLargeContinues', 'RillingMonotone', 'RillingBoundary', 'SdStrict', 'SdMonotone', 'FixedOnce']
+STOP_INVS = ['RillingAnyLargeContinues', 'RillingMonotone', 'RillingBoundary', 'SdStrict', 'SdMonotone', 'FixedOnce', 'EnergyBoundary', 'EnergyMonotone']
 
 
 def stop_rules_leg(ctx, emd):
@@ -234,7 +257,7 @@ def stop_rules_leg(ctx, emd):
     core.write_cfg(cfg, init='Init', next_='Next', invariants=STOP_INVS, constants=consts)
     res = core.run_tlc(ctx, 'StopRules', cfg, name='StopRules laws')
     core.require_ok(res, 'Leg A StopRules')
-    for w in ('W_RillingBoundaryReached', 'W_SdEqualReached'):
+    for w in ('W_RillingBoundaryReached', 'W_SdEqualReached', 'W_EnergyBoundaryReached'):
         core.write_cfg(cfg, init='Init', next_='Next', invariants=[w], constants={'MaxN': 20, 'Tols': '<- Tols3'})
         core.expect_violation(ctx, 'StopRules', cfg, w, 'StopRules ' + w, workers=2)
     recs = stop_rule_records(emd, ctx.seed, ctx.pick(1500, 15000))
@@ -244,6 +267,8 @@ def stop_rules_leg(ctx, emd):
             ctx.nontrivial(('stop', 'rilling-boundary', r['N'], r['tq']))
         elif r['rule'] == 'sd' and r['num'] * r['tq'] == r['tp'] * r['den']:
             ctx.nontrivial(('stop', 'sd-boundary', r['den'], r['tq']))
+        elif r['rule'] == 'energy' and abs(r['A'] - r['B'] * 10 ** r['K']) <= 1:
+            ctx.nontrivial(('stop', 'energy-next-to-threshold', r['K'], r['A'] - r['B'] * 10 ** r['K']))
     seen = set()
     for r, clause in bad:
         if clause in seen:
@@ -252,6 +277,7 @@ def stop_rules_leg(ctx, emd):
         ctx.violation('C04 stop rules: %s violated by a direct call: %s' % (clause, r), {'leg': 'stop-rules', 'clause': clause, 'record': r})
     ctx.leg('stop-rules', invariants=STOP_INVS, records=len(recs), mismatches=len(bad),
             at_rilling_boundary=sum(1 for r in recs if r['rule'] == 'rilling' and r['n1'] * r['tq'] == r['tp'] * r['N'] and r['n2'] == 0),
+            next_to_energy_threshold=sum(1 for r in recs if r['rule'] == 'energy' and abs(r['A'] - r['B'] * 10 ** r['K']) <= 1),
             at_sd_boundary=sum(1 for r in recs if r['rule'] == 'sd' and r['num'] * r['tq'] == r['tp'] * r['den']))
 
 
